@@ -15,7 +15,7 @@ RULES = {
     "C01": {"EmptyNotDrained", "ReadWrongPlace", "ReadWrongBytes", "ReadUncommitted", "JoinNotAtBoundary",
             "ReaderStatusNotOk", "ReadOutOfBuffer"},
     "C02": {"WriteOutOfBuffer", "WriterOverlapsUnread", "MappedRegionModified", "ReadUncommitted", "ReadOutOfBuffer"},
-    "C03": {"BlockedWhileDrained", "BlockedWhileRefusing", "WriteRefusedWhileAccepting", "WriteGrantedWhileRefusing"},
+    "C03": {"DrainNotBounded", "BlockedWhileDrained", "BlockedWhileRefusing", "WriteRefusedWhileAccepting", "WriteGrantedWhileRefusing"},
 }
 HARNESS_RULES = {"HarnessMisuseMapWhileMapped", "HarnessSeenLength", "HarnessPopEmpty", "UnknownEvent"}
 
